@@ -331,6 +331,11 @@ def checkRole (pgp : Bytes → Option Bytes) (digests sigs : List (Bytes × Byte
     | none => .err "pgp"
     | some text => checkSig text digests
 
+/-- no two digested members share a name (fix-dupname: checked after the walk) -/
+def distinctNames (es : List Entry) : Bool :=
+  let ns := (es.filter fun e => !isGpgName e.name).map (·.name)
+  ns.eraseDups.length == ns.length
+
 /-- `signdeb.Verify(r, keyring, false)`: per role outcomes, in first-appearance order of the roles.
     Go iterates the `sigs` map in random order and returns at the first failure. -/
 def verify (H1 H2 : Bytes → Bytes) (pgp : Bytes → Option Bytes) (f : Bytes) : Res (List (Bytes × Res Unit)) :=
@@ -342,6 +347,7 @@ def verify (H1 H2 : Bytes → Bytes) (pgp : Bytes → Option Bytes) (f : Bytes) 
     | .octal => .panic "ar.octal"
     | .fuel => .diverge
     | .eof =>
+      if !distinctNames p.1 then .err "duplicate" else
       let digests := digestsOf H1 H2 p.1
       let sigs := sigsOf p.1
       .ok ((rolesOf sigs).map fun r => (r, checkRole pgp digests sigs r))
@@ -386,8 +392,5 @@ def plainName (n : Bytes) : Bool :=
   !(n.any fun c => c == 10 || c == 13) && n.getLast? != some 32 && n.getLast? != some 9 &&
     isGpgName n == isGpgName (pathClean n)
 
-def distinctNames (es : List Entry) : Bool :=
-  let ns := (es.filter fun e => !isGpgName e.name).map (·.name)
-  ns.eraseDups.length == ns.length
 
 end Relic.Deb
